@@ -106,6 +106,21 @@ func runC09EdgeMaps(c *hlib.Ctx) {
 		}
 		return -1
 	}
+	{ // de-duplicate edge keys (ids must be unique)
+		var uniq []ekey
+		for _, k := range ekeys {
+			dup := false
+			for _, u := range uniq {
+				if u == k {
+					dup = true
+				}
+			}
+			if !dup {
+				uniq = append(uniq, k)
+			}
+		}
+		ekeys = uniq
+	}
 	hs := make([]string, len(ekeys))
 	for i, k := range ekeys {
 		hs[i] = fmt.Sprintf("%x", model3d.VerifEdgeHash([2]model3d.Coord3D{pool[k.a].reps[0], pool[k.b].reps[0]}))
